@@ -13,6 +13,7 @@ THEOREMS = [
     "TornadoModel.C06.cache_sound_step",
     "TornadoModel.C06.cache_sound_run",
     "TornadoModel.C06.refines_multimap",
+    "TornadoModel.C06.get_is_joined_list",
     "TornadoModel.C06.present_deletable",
     "TornadoModel.C06.reported_deletable",
     "TornadoModel.C06.present_deletable_run",
@@ -48,7 +49,8 @@ CLAUSES = {
     "behaves like an insertion-ordered multimap keyed by case-insensitive name":
         "refines_multimap + normalize_eq_iff_lower_eq + normalize_case_variants (all names, not only letters-and-hyphens; "
         "closed form of the stored key: normalize_eq_headerCase)",
-    "reading a name returns its values joined by commas": "refines_multimap (Spec.get) + cache_sound_run",
+    "reading a name returns its values joined by commas":
+        "get_is_joined_list (model alone: h[n] = ','.join(get_list(n)), cached or not, every reachable state) + refines_multimap (Spec.get) + cache_sound_run",
     "any name reported present can be deleted":
         "reported_deletable (reachable states; presence reported by ANY read API: in / iteration / get_all / get_list / "
         "h[n] through the cache; every spelling; afterwards no API reports it) + present_deletable_run (same on run outputs) "
@@ -62,6 +64,10 @@ CLAUSES = {
     "serializing and parsing back yields an equal map": "parse_str_roundtrip",
 }
 PARALLEL = True
+# pure in-memory dict/list operations: nothing here can hang.  The default 20 s wall-clock watchdog did fire once on a
+# starved machine (load 56 on 16 cores) in the middle of a forked worker's first `import tornado` and left asyncio
+# half-imported ("NameError: name 'base_events' is not defined" on the retry) — a false alarm of the harness.
+CASE_TIMEOUT = 180
 
 NAMES = ["a", "A", "x-y", "X-Y", "X-y", "Set-Cookie", "set-cookie", "b", "content-LENGTH", "-", "a-", "-a", "a--b", "Z9-z9"]
 VALUES = ["1", "2", "v w", "a\tb", "", "\xe9\xff", "x,y", "a:b", "#", "  padded  "]
@@ -448,7 +454,10 @@ def run_impl(case):
         pairs = [list(p) for p in h.get_all()]
         if all(TOKEN.match(k) and FIELD_VALUE.match(v) for k, v in pairs):
             try:
-                extra["roundtrip"] = [list(p) for p in HTTPHeaders.parse(str(h)).get_all()] == pairs
+                h2 = HTTPHeaders.parse(str(h))
+                # "an equal map": the same (name, value) pairs in the same order, and equal as mappings (==, both ways)
+                extra["roundtrip"] = [list(p) for p in h2.get_all()] == pairs and bool(h2 == h) and bool(h == h2) \
+                    and list(h2) == list(h)
             except Exception as e:
                 extra["roundtrip"] = _exc(e)
         return {"outs": outs, **extra}
